@@ -98,6 +98,10 @@ theorem hier_response_fidelity (cfg : Cfg) (hsc : cfg.selfConsistent = true)
     members (`tags | {id(inst)}`), so the set holds ancestors only -/
 theorem facts02_guard : facts02.guardPathLocal = true := by decide
 
+/-- a ByteArray value given in chunks is encoded as the concatenation of its chunks (witness `[b'a', b'bcd']` for base64, hex
+    and urlsafe members): chunking is below the model, `Val.bytes` is the concatenation -/
+theorem facts02_bytes_join : facts02.bytesJoinBeforeEncode = true := by decide
+
 /-- **The document depends on the value, not on object identity.** Whatever Python objects the nodes of a returned
     value are (`ids`: the same `ComplexModel` instance may sit in several members of one object, in several slots of
     one array, in cousins …), as long as no object contains itself, `_object_to_doc` with its cycle guard writes
